@@ -170,6 +170,17 @@ def absorb_arith(model, rep, rule, triples):
                 rep.violation(f'{rule}.{sub}', i.extra['triple'], f'{i.construct}: {i.detail}', i.loc)
             else:
                 rep.cannot(f'{rule}.{sub}', i.extra['triple'], i.detail, i.loc)
+    # ... and the conversions those operators perform on their operands (to(), private copies of sub-kinds, unit tables)
+    kinds = {k for t in triples for k in (t[0], t[2]) if k != 'number'}
+    for i in dep.instances:
+        if i.rule.startswith('C06.conv.') and any(i.construct.startswith(k + '.') or i.construct.startswith(k + '[') for k in kinds):
+            sub = 'conv.' + i.rule.split('.', 2)[2]
+            if i.status == 'HOLDS':
+                rep.holds(f'{rule}.{sub}', i.construct, i.detail, i.loc)
+            elif i.status == 'VIOLATION':
+                rep.violation(f'{rule}.{sub}', i.construct, i.detail, i.loc)
+            else:
+                rep.cannot(f'{rule}.{sub}', i.construct, i.detail, i.loc)
     rep.require(rule, len(want), 'one instance per operator triple the formulas use')
     return n
 
